@@ -181,6 +181,10 @@ def units(tier, seed=0):
             us.append(dict(id='ref.%s.%s' % (L.tag, name), tu='ref_' + L.tag, gen=cxx, template_text=txt, vars={}, entry=h,
                            enforce='@F{%s}' % refops.RXR[key], replace=[], props=props, layer='reference.hpp/elementTraits.hpp',
                            kind='bounded(span items <= 2, loops unwound)', unwind=20, cdefs=['VF_TRACKED=1'], config='reference operations: ' + spec))
+    for form in ('store_lvalue', 'store_rvalue'):
+        us.append(dict(id='conv.tracked.%s' % form, tu='conv_tracked', gen=conv.cxx_tu_tracked(), template_text=conv.c_unit_tracked(form), vars={}, entry='h_store',
+                       enforce='@F{%s}' % conv.STORE_RX[form], replace=[], props=['C15', 'C06'], layer='parameterTraits.hpp/memory.hpp',
+                       kind='bounded(4 items, copy loop unwound)', unwind=6, cdefs=['VF_TRACKED=1'], config='conversion: FixedSize<Tracked> store, %s' % form))
     for spec in cmpu.CMP_LISTS[tier]:
         txt, L = cmpu.c_unit(spec)
         cxx = cmpu.cxx_tu(spec)
